@@ -814,6 +814,45 @@ func streamC20(c *Ctx) {
 		}
 		im.Destroy()
 	}
+	// Save of data that cannot be converted to a document (a struct holding a channel or a function, a scalar, a slice,
+	// a map with non-string keys): an error, nothing stored - never a panic
+	for _, be := range backendsAll {
+		im := NewImpl(be, c.Scratch)
+		im.db.CreateCollection("sv")
+		type withChan struct {
+			Name string
+			C    chan int
+		}
+		type withFunc struct {
+			F func()
+			N int
+		}
+		type nested struct {
+			Inner *withChan
+		}
+		before := im.Dump()
+		for i, data := range []interface{}{withChan{Name: "x", C: make(chan int)}, &withFunc{N: 1}, nested{Inner: &withChan{}}, 42, "s", []int{1}, map[int]string{1: "a"}, 3.5, true, complex(1, 2)} {
+			var err error
+			pan := ""
+			func() {
+				defer func() {
+					if r := recover(); r != nil {
+						pan = fmt.Sprint(r)
+					}
+				}()
+				err = im.db.Save("sv", data)
+			}()
+			c.Evals++
+			if pan != "" || err == nil || im.Dump() != before {
+				c.Violation(&Replay{Backend: be, Stream: "api", Case: []interface{}{J{"k": "save-unconvertible", "i": i, "type": fmt.Sprintf("%T", data)}}, Actual: []string{pan, fmt.Sprint(err)},
+					Note: "Save of a value that cannot be converted to a document must return an error and store nothing"})
+				im.Destroy()
+				return
+			}
+			c.NonTrivial(fmt.Sprint("save-unconvertible", be, i))
+		}
+		im.Destroy()
+	}
 	// direct API calls
 	g := NewGen(c.Rng, Domain{})
 	for i := 0; i < c.N(9000, 120000); i++ {
